@@ -26,6 +26,7 @@ type cell struct {
 	AFlags, DFlags         gen.NetworkFlags
 	AAccFlags, DRouteFlags *gen.NetworkFlags
 	AMMS, AAccMMS, DMMS    int
+	RouteFirst             bool // static kinds: AddRoute BEFORE the run-time cookie change (default: after it)
 	Stagger                bool // start the dialing node in a later wall-clock second, so that the two creations differ
 }
 
@@ -43,6 +44,9 @@ func (c cell) id() string {
 	}
 	if c.Stagger {
 		s += "/staggered-start"
+	}
+	if c.RouteFirst {
+		s += "/route-added-before-change"
 	}
 	return s
 }
@@ -132,7 +136,8 @@ func startPair(c cell) (a, d *hk.HNode, err error) {
 	return a, d, nil
 }
 
-func dial(c cell, a, d *hk.HNode) error {
+// dial connects d to a the way the cell says; addOnly = only install the static route (RouteFirst cells)
+func dial(c cell, a, d *hk.HNode, addOnly bool) error {
 	route := gen.NetworkRoute{Cookie: c.DRoute}
 	if c.DRouteFlags != nil {
 		route.Flags = *c.DRouteFlags
@@ -151,14 +156,24 @@ func dial(c cell, a, d *hk.HNode) error {
 		_, err = d.Network().GetNodeWithRoute(a.Name(), route)
 	case "static":
 		route.Route = r
-		if e := d.Network().AddRoute(string(a.Name()), route, 1); e != nil {
-			return fmt.Errorf("harness: AddRoute: %w", e)
+		if addOnly || !c.RouteFirst {
+			if e := d.Network().AddRoute(string(a.Name()), route, 1); e != nil {
+				return fmt.Errorf("harness: AddRoute: %w", e)
+			}
+		}
+		if addOnly {
+			return nil
 		}
 		_, err = d.Network().GetNode(a.Name())
 	case "static-resolver":
 		route.Resolver = &fixedResolver{routes: []gen.Route{rv}}
-		if e := d.Network().AddRoute(string(a.Name()), route, 1); e != nil {
-			return fmt.Errorf("harness: AddRoute: %w", e)
+		if addOnly || !c.RouteFirst {
+			if e := d.Network().AddRoute(string(a.Name()), route, 1); e != nil {
+				return fmt.Errorf("harness: AddRoute: %w", e)
+			}
+		}
+		if addOnly {
+			return nil
 		}
 		_, err = d.Network().GetNode(a.Name())
 	case "registrar":
@@ -225,6 +240,9 @@ func explainCell(c cell, connected bool, probe func(cookie string) bool) (sig, w
 			dialSig, dialUsed = "", c.dialEff()
 		case c.DRoute != "" && connected == (accActual == dialNode):
 			dialSig, dialUsed = routeSig, dialNode
+		case c.DRoute == "" && c.Runtime == "d-net-setcookie" && c.RouteFirst && connected == (accActual == rnd(c.DNode, "D")):
+			// the node cookie as it was when the route was added, not the current one
+			dialSig, dialUsed = "static-route-freezes-node-cookie", rnd(c.DNode, "D")
 		}
 		if dialSig != "?" && (accSig != "" || dialSig != "") {
 			sig = accSig
@@ -248,7 +266,7 @@ func runCell(c cell) {
 	r := &res{}
 	var events int64
 	expect := c.accEff() == c.dialEff()
-	key := fmt.Sprintf("M/%s/acc-cookie-set=%v/route-cookie-set=%v/runtime=%s/equal=%v", c.Kind, c.AAcc != "", c.DRoute != "", c.Runtime, expect)
+	key := fmt.Sprintf("M/%s/acc-cookie-set=%v/route-cookie-set=%v/runtime=%s/route-first=%v/equal=%v", c.Kind, c.AAcc != "", c.DRoute != "", c.Runtime, c.RouteFirst, expect)
 	detail := map[string]any{"cell": c, "acceptor_effective_cookie": c.accEff(), "dialer_effective_cookie": c.dialEff(), "expect_connected": expect}
 
 	a, d, err := startPair(c)
@@ -259,6 +277,13 @@ func runCell(c cell) {
 	}
 	defer stopNodes(d, a)
 
+	if c.RouteFirst {
+		if err := dial(c, a, d, true); err != nil {
+			r.inconclusive("%v", err)
+			finish(id, "matrix", key, false, 0, r, detail)
+			return
+		}
+	}
 	switch c.Runtime {
 	case "a-net-setcookie":
 		a.Network().SetCookie(c.New)
@@ -274,7 +299,7 @@ func runCell(c cell) {
 		d.Network().SetCookie(c.New)
 	}
 
-	derr := dial(c, a, d)
+	derr := dial(c, a, d, false)
 	if !fence(a.Port) {
 		r.inconclusive("watchdog: fence on acceptor")
 		finish(id, "matrix", key, false, 0, r, detail)
@@ -409,6 +434,16 @@ func runMatrix() {
 	add(cell{Kind: "direct", ANode: "", AAcc: "x", DNode: "x"})
 	add(cell{Kind: "registrar", ANode: "", DNode: "x"})
 	// cookies changed at run time
+	// dialer-side histories: static route added BEFORE / AFTER Network().SetCookie on the dialer; a route
+	// without its own cookie presents the node's CURRENT cookie, a route with its own cookie keeps it
+	for _, kind := range []string{"static", "static-resolver"} {
+		for _, first := range []bool{true, false} {
+			for _, dr := range []string{"", "x", "y"} {
+				add(cell{Kind: kind, ANode: "x", DNode: "x", DRoute: dr, Runtime: "d-net-setcookie", New: "y", RouteFirst: first}) // old cookie revoked
+				add(cell{Kind: kind, ANode: "x", DNode: "y", DRoute: dr, Runtime: "d-net-setcookie", New: "x", RouteFirst: first}) // new cookie is the peer's
+			}
+		}
+	}
 	for _, kind := range []string{"direct", "registrar"} {
 		add(cell{Kind: kind, ANode: "x", DNode: "x", Runtime: "a-net-setcookie", New: "z"})
 		add(cell{Kind: kind, ANode: "x", DNode: "z", Runtime: "a-net-setcookie", New: "z"})
